@@ -5,6 +5,7 @@ import (
 	"go/constant"
 	"go/token"
 	"go/types"
+	"regexp"
 	"sort"
 	"strings"
 	"sync"
@@ -474,6 +475,48 @@ func runC20Narrowing(c *Ctx) {
 	r := c.R
 	// netip addresses are rendered by netip itself: Line.IP hands every valid address to (netip.Addr).AppendTo. The
 	// hand-written IPv6 formatter knows neither the IPv4-mapped form (::ffff:1.2.3.4) nor zones (fe80::1%eth0).
+	// the dotted-quad rendering of a net.IP is chosen exactly when net.IP.String() chooses it: the four bytes rendered
+	// through the byteAscii table are those of value.To4(), under "To4() != nil" (a hand-written family test that looks
+	// at fewer than the twelve prefix bytes prints 0:0:0:0:1:ffff:c0a8:1 as 192.168.0.1)
+	r.Rule("ip4-family", "a net.IP is rendered as a dotted quad exactly when To4() says it is IPv4", 8)
+	for _, fn := range c.P.ModuleFunctions() {
+		if fn.Pkg == nil || fn.Pkg.Pkg.Name() != "fastlog" {
+			continue
+		}
+		kgf := core.NewKeyGen()
+		core.EachInstr(fn, func(i ssa.Instruction) {
+			ia, ok := i.(*ssa.IndexAddr)
+			if !ok {
+				return
+			}
+			tbl := ia.X
+			if ld, isLd := tbl.(*ssa.UnOp); isLd {
+				tbl = ld.X
+			}
+			if g, isG := tbl.(*ssa.Global); !isG || g.Name() != "byteAscii" {
+				return
+			}
+			// index = uint8 element of a net.IP
+			idx := stripConv(ia.Index)
+			ld, ok := idx.(*ssa.UnOp)
+			if !ok {
+				return
+			}
+			el, ok := ld.X.(*ssa.IndexAddr)
+			if !ok || el.X.Type().String() != "net.IP" {
+				return
+			}
+			st, det := core.Proved, ""
+			call, isCall := el.X.(*ssa.Call)
+			if !isCall || call.Call.StaticCallee() == nil || call.Call.StaticCallee().String() != "(net.IP).To4" {
+				st, det = core.Violated, "the address byte rendered as a decimal comes from "+norm(el.X)+", not from To4() of the value: the IPv4 form is chosen by something other than net.IP's own test"
+			} else if !hasGuard(guardsOf(i), "^!\\("+regexp.QuoteMeta(norm(el.X))+"==nil\\)$") {
+				st, det = core.Violated, "the dotted-quad rendering is not under To4() != nil: "+guardTexts(guardsOf(i))
+			}
+			r.Add(core.Obligation{Rule: "ip4-family", Key: strings.TrimSuffix(kgf.Key("ip4-family "+core.FuncName(fn)), "#0"), Func: core.FuncName(fn), Pos: c.P.Pos(core.PosOf(i)), Status: st,
+				Basis: "byteAscii[To4(value)[k]] under To4(value) != nil", Detail: det})
+		})
+	}
 	r.Rule("netip-text", "Line.IP renders every valid netip.Addr with netip's own AppendTo", 1)
 	if fn := c.P.Method("fastlog", "Line", "IP"); fn != nil {
 		var valid ssa.Instruction
